@@ -18,7 +18,9 @@ class Hang(Exception):
 
 
 class WorkerDeath(BaseException):
-    """Raised inside a callback to simulate the death of the worker process."""
+    """Raised inside a callback to simulate the death of the worker process; `code` is the exit code the
+    process ends with (positive: os._exit(k) / uncaught error; negative: killed by a signal, e.g. -9)."""
+    code = 1
 
 
 class StandInUnsupported(Exception):
@@ -185,7 +187,7 @@ class FakeProcess:
             self.target(*self.args, **self.kwargs)
             self._exitcode = 0
         except BaseException as exc:      # an uncaught exception ends a real process with code 1
-            self._exitcode = 1
+            self._exitcode = int(getattr(exc, "code", 1)) if isinstance(exc, WorkerDeath) else 1
             s.log.append(("died", self.t.name, repr(exc)[:120]))
             if _standin_fault(exc):
                 s.unsupported = "%s: %r" % (self.t.name, exc)
